@@ -674,4 +674,17 @@ example : pairs (deduplicate true exBag).1 = [("a", [65, 67, 78]), ("c", [84, 84
     (deduplicate true exBag).2.2 = [["a", "b", "d"], ["c", "e"]] := by decide
 example : (deduplicate true (deduplicate true exBag).1).2.2 = [["a"], ["c"]] := by decide
 
+/-- why the names must be pairwise distinct: after a caller's `Rename` has given every row the name `a`,
+re-adding renames the kept rows (policy NONE) … -/
+theorem dedup_repeated_names_renamed :
+    pairs (deduplicate false (renameWith (fun _ => "a") exBag)).1 =
+      [("a", [65, 67, 78]), ("a_0001", [65, 67, 45]), ("a_0002", [84, 84, 84])] ∧
+    (deduplicate false (renameWith (fun _ => "a") exBag)).2.2 = [["a", "a"], ["a"], ["a", "a"]] := by decide
+
+/-- … or silently drops rows with distinct sequences (policy IGNORE_NAME) while still reporting their groups -/
+theorem dedup_repeated_names_dropped :
+    pairs (deduplicate false { renameWith (fun _ => "a") exBag with policy := IGNORE_NAME }).1 = [("a", [65, 67, 78])] ∧
+    (deduplicate false { renameWith (fun _ => "a") exBag with policy := IGNORE_NAME }).2.2 = [["a", "a"], ["a"], ["a", "a"]] := by
+  decide
+
 end Gv.Props.C13
